@@ -297,11 +297,49 @@ def one_case(args):
     return res
 
 
+def glob_matches_script_case(args):
+    """outputs written in the working directory and named by a glob that also matches the NAME OF THE TEST SCRIPT
+    (test_*), the test generated twice: the earlier script is not an output of the command - the second script has no test
+    for it, does not delete it, and passes.  Returns a problem or None."""
+    i, seed, base = args
+    import random
+    rng = random.Random(seed)
+    d = os.path.join(base, 'globscript%d' % i)
+    shutil.rmtree(d, ignore_errors=True)
+    os.makedirs(d)
+    names = rng.sample(['test_table.txt', 'test_totals.txt', 'test_zz.log'], rng.randint(1, 2))
+    with open(os.path.join(d, 'cmd.sh'), 'w') as f:
+        f.write('#!/bin/sh\necho run complete\n' + ''.join("printf 'value %d\\n' > %s\n" % (k, nm) for k, nm in enumerate(names)) + 'exit 0\n')
+    script = rng.choice(['test_cmd.py', 'test_all.py'])
+    glob_ = rng.choice(['test_*', 't*'])
+    flags = rng.choice([[], ['-n', '1'], ['-n', '3']])
+    for gen in (1, 2):
+        rc, out = G.run_gentest(d, script, flags, [glob_], 'sh cmd.sh')
+        if rc != 0 or not os.path.exists(os.path.join(d, script)):
+            return 'generation %d with outputs named %r failed (exit %s): %s' % (gen, glob_, rc, out[-300:])
+    tests, dup = G.script_tests(os.path.join(d, script))
+    about_script = [t for t, inf in tests.items() if script.replace('.', '_') in t or inf.get('target') == script]
+    rc2, results, out2 = G.run_script(d, script)
+    if about_script:
+        return 'generated twice with outputs named %r: the second script tests the first script as an output (%r)' % (glob_, about_script)
+    if not os.path.exists(os.path.join(d, script)):
+        return 'generated twice with outputs named %r: running the script deleted the script itself' % glob_
+    if rc2 != 0 or any(v != 'ok' for v in results.values()) or len(results) != 4 + len(names):
+        return ('generated twice with outputs named %r: the script does not pass straight afterwards, or has the wrong tests '
+                '(exit %s, %d tests for %d output files): %s' % (glob_, rc2, len(results), len(names), out2[-300:]))
+    return None
+
+
 def run(ctx):
     unit_layers(ctx)
     base = os.path.join(lib.WORK, 'c11')
     shutil.rmtree(base, ignore_errors=True)
     os.makedirs(base)
+    for k_, problem in enumerate(G.pmap(glob_matches_script_case, [(i, ctx.rng.randrange(1 << 30), base) for i in range(4 if ctx.quick else 40)])):
+        ctx.count(('glob-matches-script', k_), True)
+        ctx.bump('glob_matches_script')
+        if problem:
+            ctx.fail({'scenario': 'output glob also matches the test script; generated twice', 'case': k_}, problem)
     n = 32 if ctx.quick else 800
     seeds = [ctx.rng.randrange(1 << 30) for _ in range(n)]
     results = G.pmap(one_case, [(i, s, base) for i, s in enumerate(seeds)])
